@@ -59,7 +59,7 @@ func c19Text(class string, messy bool) (string, bool) {
 func c19Cases(tier string) []c19Case {
 	var out []c19Case
 	actions := [][]string{{}, {"t"}, {"u"}, {"--show"}, {"--vars"}, {"--fmt"}, {"--init"}, {"--force", "t"}, {"--quiet", "t"}, {"--json", "t"}, {"--debug", "t"}, {"t", "u", "--json"}, {"nosuchtask"}, {"--fmt", "--quiet"}, {"--spokfile", "spokfile", "--show"},
-		{"--spokfile", "Spokfile", "--fmt"}, {"--spokfile", "Spokfile", "--show"}, {"--spokfile", "other/spokfile", "t"}}
+		{"--help"}, {"--version"}, {"-h"}, {"--show", "--vars"}, {"--vars", "t"}, {"--spokfile", "Spokfile", "--fmt"}, {"--spokfile", "Spokfile", "--show"}, {"--spokfile", "other/spokfile", "t"}}
 	for _, cl := range c19Classes {
 		for _, a := range actions {
 			for _, nested := range []bool{false, true} {
